@@ -1280,7 +1280,19 @@ pub fn run_trace(
             return report;
         }
     };
-    let fault_free = trace.faults.is_empty();
+    // Dropping an optional table leaves a well-formed font: such runs count as fault-free for the
+    // oracles that are restricted to well-formed sources.
+    const OPTIONAL: &[&str] = &[
+        "HVAR", "MVAR", "avar", "STAT", "cvar", "GDEF", "GPOS", "GSUB", "kern", "gasp", "DSIG", "hdmx",
+        "VDMX", "LTSH", "prep", "fpgm", "cvt ", "vhea", "vmtx", "VORG", "BASE", "JSTF", "MATH", "meta",
+        "morx", "SVG ", "sbix", "CBLC", "CBDT", "EBLC", "EBDT", "COLR", "CPAL", "VVAR",
+    ];
+    let fault_free = trace.faults.iter().all(|f| match f {
+        // vhea/vmtx, CBLC/CBDT, EBLC/EBDT only as pairs would be cleaner; a lone half is still a
+        // font every reader must accept as "table absent"
+        Fault::DropTable { tag } => OPTIONAL.contains(&tag.as_str()),
+        _ => false,
+    });
     let sim = prepared.disk.clone().map(SimProvider::new);
     let mut decoys = BTreeMap::new();
     for op in &trace.ops {
